@@ -222,7 +222,8 @@ func shrink(h pcdrv.History, class string) (pcdrv.History, pcdrv.RunResult, stri
 	for changed := true; changed; {
 		changed = false
 		for i := range h.Ops {
-			cand := pcdrv.History{NSrc: h.NSrc, Ops: append(append([]pcdrv.Op{}, h.Ops[:i]...), h.Ops[i+1:]...)}
+			cand := h
+			cand.Ops = append(append([]pcdrv.Op{}, h.Ops[:i]...), h.Ops[i+1:]...)
 			if r2, cl, _, m := runOracle(cand); cl == class && r2.TimingOK {
 				h, r, msg, changed = cand, r2, m, true
 				break
@@ -245,7 +246,8 @@ func shrink(h pcdrv.History, class string) (pcdrv.History, pcdrv.RunResult, stri
 				alts = append(alts, a)
 			}
 			for _, a := range alts {
-				cand := pcdrv.History{NSrc: h.NSrc, Ops: append([]pcdrv.Op{}, h.Ops...)}
+				cand := h
+				cand.Ops = append([]pcdrv.Op{}, h.Ops...)
 				cand.Ops[i] = a
 				if r2, cl, _, m := runOracle(cand); cl == class && r2.TimingOK {
 					h, r, msg, changed = cand, r2, m, true
@@ -412,6 +414,25 @@ func main() {
 		a, b := order[0], order[1] // a holds the newest version
 		ops := []pcdrv.Op{pcdrv.Set(b, P, 3), pcdrv.Set(a, P, 5), pcdrv.Get(P), pcdrv.RefreshFail(a), pcdrv.Get(P), pcdrv.Refresh(), pcdrv.RefreshFail(a), pcdrv.Get(P)}
 		items = append(items, &item{fam: "targeted", h: pcdrv.History{NSrc: 2, Ops: ops}})
+	}
+	// option combinations: the time-to-live histories with a refresh interval configured
+	// (default 2 minutes, 1 hour; options in both orders); refreshes are explicit
+	for opt := 1; opt <= 4; opt++ {
+		shapes := [][]pcdrv.Op{
+			{pcdrv.Set(0, P, 1), pcdrv.Refresh(), pcdrv.Set(0, P, -1), pcdrv.Refresh(), pcdrv.Expire(), pcdrv.Refresh(), pcdrv.Get(P)},
+			{pcdrv.Set(0, P, 1), pcdrv.Set(1, Q, 1), pcdrv.Refresh(), pcdrv.Set(0, P, -1), pcdrv.Refresh(), pcdrv.Refresh(), pcdrv.Expire(), pcdrv.Refresh(), pcdrv.Expire(), pcdrv.Refresh()},
+			{pcdrv.Get(Q), pcdrv.Get(Q), pcdrv.Expire(), pcdrv.Refresh(), pcdrv.Set(0, Q, 1), pcdrv.Get(Q), pcdrv.Refresh(), pcdrv.Get(Q)},
+			{pcdrv.Set(0, P, 1), pcdrv.Get(P), pcdrv.RefreshFail(0), pcdrv.Expire(), pcdrv.RefreshFail(0), pcdrv.Get(P)},
+		}
+		for _, ops := range shapes {
+			items = append(items, &item{fam: "targeted", h: pcdrv.History{NSrc: 2, Ops: ops, Opts: opt}})
+		}
+		or := c.Rng.Fork(fmt.Sprint("opts", opt))
+		for i := 0; i < c.Pick(12, 200); i++ {
+			h := randomHistory(or)
+			h.Opts = opt
+			items = append(items, &item{fam: "targeted", h: h})
+		}
 	}
 	nTargeted := len(items) - nWords
 
@@ -621,11 +642,22 @@ func main() {
 	for _, cl := range classes {
 		it := firstOf[cl]
 		sh, _, msg := shrink(it.h, cl)
-		c.Fail(cl+":nsrc="+fmt.Sprint(sh.NSrc)+":"+pcdrv.OpsString(sh.Ops), msg, sh)
+		c.Fail(cl+":nsrc="+fmt.Sprint(sh.NSrc)+histFlags(sh)+":"+pcdrv.OpsString(sh.Ops), msg, sh)
 	}
 
 	c.Res.Exhaustive = true
 	c.Res.Rule = fmt.Sprintf("all words of length %d over %d symbols {%v} on 2 sources / 2 providers, each from an empty cache and from a warm one (%d histories, exhaustive); %d targeted histories with overlapping Refresh requests, a Refresh arriving during a miss and a miss arriving during a Refresh; %d histories (all words of length 3 + seeded random ones) with the scripted sources served over HTTP and read through pcache.NewHTTPSource; records carry distinguishable content incl. a head-advertisement CID per version and every record handed out is re-read after every later call (it must never change); seeded random histories of 10..40 ops over 1..3 sources and 1..4 providers (+1 nobody reports): content changes (advance, regress, drop, missing time, same time), refresh (plain / failing sources / cancelled at an index / overlapping), lookups (hit, miss, negative, failing source, refresh during the miss), expiries. Real time-to-live %v, one sleep per expiry, every epoch checked to fit inside it. Non-trivial = contains a successful refresh after a cancelled one, a failing source, a negative hit, a waiting request or an expiry after a successful refresh", wlen, nsym, symbolNames[:nsym], nWords, nTargeted, nHTTP, ttl)
+}
+
+func histFlags(h pcdrv.History) string {
+	s := ""
+	if h.HTTP {
+		s += ":http"
+	}
+	if h.Opts != 0 {
+		s += ":" + []string{"", "ttl,default-interval", "default-interval,ttl", "interval-1h,ttl", "ttl,interval-1h"}[h.Opts]
+	}
+	return s
 }
 
 func classRank(cl string) int {
